@@ -29,8 +29,9 @@
      GFA1       segment name containing "+," or "-,"; a segment list that only parses
                 with commas inside names; `*` as an element of a path's overlap list (only
                 while the NUMBER of overlaps fits: a wrong count is rejected whatever the
-                elements are, see PathCountWrong); a
-                path with as many overlaps as segments (circular, gfapy only); empty
+                elements are, see PathCountWrong); the link of a path junction when only a
+                link in the complement form, or one whose overlap is `*` while the path
+                states a CIGAR, is present (compatible for gfapy; the texts do not say); empty
                 containment position (the GFA1 table allows zero digits); a negative LN on a
                 segment without sequence; user record types (none in GFA1)
      GFA2       "-0" as a position; one-element and negative traces; "+" sign of a
@@ -42,8 +43,17 @@
                 (slen is "an indication to a drawing program"); a position equal to the
                 length without `$` (the property states only the other direction)
      lines      one line terminator at the very end of a comment text; a document with
-                duplicate identifiers (C09) or a GFA1 path without its links (gfapy
-                requires them, the GFA1 text does not); comments in rGFA             *)
+                duplicate identifiers (C09); comments in rGFA
+   Paths and their links (decided, no longer "either"): the GFA1 text defines a path as a list of
+   oriented segments "where each consecutive pair of oriented segments is supported by a link
+   record"; gfapy's documentation (tutorial/references: "paths contain information in the fields
+   segment_names and overlaps, which allow to identify the links from which they depend"; Path
+   .is_circular: "the number of CIGARs must be equal to the number of segments") adds that the
+   overlaps identify the links and that as many CIGARs as segments denote a circular path, whose
+   last overlap belongs to the junction from the last segment back to the first.  So: n-1 or n
+   CIGARs are accepted; a junction for which NO link line can serve (none between the two oriented
+   segments, or only direct-form links whose CIGAR differs from the one the path states) makes
+   the document invalid.                                                                    *)
 EXTENDS Naturals, Sequences, FiniteSets, Util
 
 -----------------------------------------------------------------------------
@@ -446,13 +456,13 @@ VSegLN(f) ==
                 d == StripSign(v, {"+", "-"}) IN
             IF f[3] = <<"*">> THEN V(~neg \/ IsZero(d), TRUE)          \* a negative length alone: not judged
             ELSE V((~neg \/ IsZero(d)) /\ DecIs(d, Len(f[3])), FALSE)
-\* GFA1 P: the overlaps are `*` or one CIGAR per junction (n-1); one per segment
-\* (n) is what gfapy documents for circular paths, the GFA1 text is silent
+\* GFA1 P: the overlaps are `*` or one CIGAR per junction: n-1 for a linear path, n for a circular
+\* one (the last overlap closes the circle; documented by gfapy, see the head of this module)
 VPathCount(f) ==
   LET n == Len(Split(f[3], ","))
       m == Len(Split(f[4], ",")) IN
   IF f[4] = <<"*">> THEN "acc"
-  ELSE V(m = n - 1, m = n)
+  ELSE V(m = n - 1 \/ m = n, FALSE)
 \* The SYNTAX of `*` as one of several overlaps is disputed (VAlnList1: "either"), the NUMBER of
 \* overlaps is not: by the GFA1 pattern such a list is malformed, by gfapy's reading it is a list
 \* of m overlaps and the count rule applies to it (only the single `*` stands for "all
@@ -534,15 +544,38 @@ ItemRefs(f) ==
     [] rt = "U" -> Rng(Split(f[3], " "))
     [] OTHER -> {}
 
-\* a GFA1 path names consecutive oriented segments; gfapy requires a link for each
-\* junction, the GFA1 text does not say so: judged only when a link line in the direct
-\* form is present for every junction
-PathJunctionsServed(D, f) ==
-  LET sl == Split(f[3], ",") IN
-  \A k \in 1..(Len(sl) - 1) :
-    \E j \in DOMAIN D : /\ IsStd("gfa1", D[j]) /\ RT(D[j]) = "L" /\ Len(D[j]) >= 6
-                        /\ D[j][2] = StripOr(sl[k]) /\ D[j][3] = <<OrOf(sl[k])>>
-                        /\ D[j][4] = StripOr(sl[k + 1]) /\ D[j][5] = <<OrOf(sl[k + 1])>>
+\* A GFA1 path names consecutive oriented segments; every junction must be supported by a link.
+\* A CIGAR as a sequence of <<length without leading zeros, code>>:
+RECURSIVE CigOps(_)
+CigOps(s) == IF s = <<>> THEN <<>>
+             ELSE LET e == DigitsEnd(s, 1) IN
+                  << <<StripZeros(SubSeq(s, 1, e - 1)), s[e]>> >> \o CigOps(From(s, e + 1))
+CigEq(a, b) == CigOps(a) = CigOps(b)
+\* the junctions of a (well-formed) path: <<oriented segment, next oriented segment, stated overlap>>;
+\* a single `*` leaves every overlap unstated; with as many overlaps as segments the last one closes the circle
+PathJunctions(f) ==
+  LET sl == Split(f[3], ",")
+      n == Len(sl)
+      ol == IF f[4] = <<"*">> THEN <<>> ELSE Split(f[4], ",")
+      m == Len(ol)
+      lin == {<<sl[k], sl[k + 1], IF m = 0 THEN <<"*">> ELSE ol[k]>> : k \in 1..(n - 1)} IN
+  IF m = n THEN lin \cup {<<sl[n], sl[1], ol[n]>>} ELSE lin
+InvOr(o) == IF o = "+" THEN "-" ELSE "+"
+LinkLines(D) == {j \in DOMAIN D : IsStd("gfa1", D[j]) /\ RT(D[j]) = "L" /\ Len(D[j]) >= 6}
+\* "acc": a link line in the direct form serves the junction (the path leaves the overlap unstated, or
+\*        both state the same CIGAR);
+\* "rej": no line can serve it: no link between the two oriented segments in either form, or only
+\*        direct-form links that state another CIGAR;
+\* "either": a link in the complement form, or a link with overlap `*` under a stated CIGAR
+VJunction(D, J) ==
+  LET a == StripOr(J[1])  oa == OrOf(J[1])  b == StripOr(J[2])  ob == OrOf(J[2])  ov == J[3]
+      dir == {j \in LinkLines(D) : D[j][2] = a /\ D[j][3] = <<oa>> /\ D[j][4] = b /\ D[j][5] = <<ob>>}
+      cpl == {j \in LinkLines(D) : D[j][2] = b /\ D[j][3] = <<InvOr(ob)>> /\ D[j][4] = a /\ D[j][5] = <<InvOr(oa)>>} \ dir
+  IN
+  IF \E j \in dir : ov = <<"*">> \/ (D[j][6] # <<"*">> /\ CigEq(D[j][6], ov)) THEN "acc"
+  ELSE IF cpl = {} /\ \A j \in dir : ov # <<"*">> /\ D[j][6] # <<"*">> /\ ~CigEq(D[j][6], ov) THEN "rej"
+  ELSE "either"
+VPathLinks(D, f) == Worst({VJunction(D, J) : J \in PathJunctions(f)})
 
 \* GFA2: `$` only on the last position of the segment.  The GFA2 text calls slen "an indication
 \* to a drawing program" that need not be the actual length, and gfapy (and its own test data)
@@ -592,11 +625,11 @@ DocVerdict(ver, dia, D) ==
         itemsOK == ver = "gfa1" \/ \A k \in std : ItemRefs(D[k]) \subseteq named
         dupNames == \E j, k \in std : j < k /\ RT(D[j]) \in {"S", "E", "G", "O", "U", "P"} /\ RT(D[k]) \in {"S", "E", "G", "O", "U", "P"}
                                       /\ D[j][2] = D[k][2] /\ D[j][2] # <<"*">>
-        pathsServed == ver = "gfa2" \/ \A k \in std : RT(D[k]) = "P" => PathJunctionsServed(D, D[k])
+        paths == IF ver = "gfa2" THEN "acc" ELSE Worst({VPathLinks(D, D[k]) : k \in {j \in std : RT(D[j]) = "P"}})
         dollar == IF ver = "gfa2" THEN Worst({VDollarLine(D, D[k]) : k \in std}) ELSE "acc"
         rg == IF dia = "rgfa" THEN Worst({VRgfaLine(D[k]) : k \in DOMAIN D}) ELSE "acc"
     IN
-    IF ~refsOK \/ ~itemsOK \/ dollar = "rej" \/ rg = "rej" THEN "rej"
-    ELSE IF dupNames \/ ~pathsServed \/ dollar = "either" \/ rg = "either" THEN "either"   \* identifier uniqueness is C09's subject
+    IF ~refsOK \/ ~itemsOK \/ dollar = "rej" \/ rg = "rej" \/ paths = "rej" THEN "rej"
+    ELSE IF dupNames \/ paths = "either" \/ dollar = "either" \/ rg = "either" THEN "either"   \* identifier uniqueness is C09's subject
     ELSE "acc"
 =============================================================================
